@@ -354,6 +354,8 @@ func jsonValue(c *mc.Ctx, depth int) interface{} {
 var featureGeoms = []orb.Geometry{
 	orb.Point{1, 2}, nil, orb.Collection{}, orb.Polygon{{{0, 0}, {1, 0}, {1, 1}, {0, 0}}}, orb.Ring{{0, 0}, {1, 0}, {1, 1}, {0, 0}},
 	orb.Bound{Min: orb.Point{0, 0}, Max: orb.Point{1, 1}}, orb.Collection{orb.Point{1e21, 1e-7}, orb.Collection{orb.LineString{{1, 2}, {3, 4}}}}, orb.MultiPoint{{1, 2}},
+	// an empty collection as a member (it travels as a null inside "geometries") and as the only member
+	orb.Collection{orb.Point{1, 2}, orb.Collection{}}, orb.Collection{orb.Collection{}},
 }
 
 func genFeature(c *mc.Ctx) *geojson.Feature {
@@ -479,7 +481,7 @@ func checkFeature(c *mc.Ctx, f *geojson.Feature) {
 
 func main() {
 	r := ev.New("C02", "exploration")
-	r.Rule = "geometries: the geometry grammar (full product of the non-collection kinds, collections nested to depth 3 within a deviation bound) with coordinates assigned positionally from 20 finite values incl. exponent-form magnitudes, 2^53+1, 5e-324, MaxFloat64 and -0, through geojson.Geometry and the typed helper types, JSON and BSON; features: 8 geometries (nil, empty collection, ring, bound, nested collection) x 8 ids x property maps of 0..2 keys over the JSON value grammar to depth 2 x 3 bbox forms, within a deviation bound; feature collections of 0..2 such features with foreign members, under every iteration order of the package's map ranges (instrumented overlay); non-trivial = the geometry has a vertex / the feature has an id, a property or a bbox"
+	r.Rule = "geometries: the geometry grammar (full product of the non-collection kinds, collections nested to depth 3 within a deviation bound) with coordinates assigned positionally from 20 finite values incl. exponent-form magnitudes, 2^53+1, 5e-324, MaxFloat64 and -0, through geojson.Geometry and the typed helper types, JSON and BSON; features: 10 geometries (nil, empty collection - also as a member of a collection -, ring, bound, nested collection) x 8 ids x property maps of 0..2 keys over the JSON value grammar to depth 2 x 3 bbox forms, within a deviation bound; feature collections of 0..2 such features with foreign members, under every iteration order of the package's map ranges (instrumented overlay); non-trivial = the geometry has a vertex / the feature has an id, a property or a bbox"
 	r.Assume = []string{
 		"BSON values are compared after mapping primitive.D/M/A and int32/int64 to plain maps, slices and float64: the representation is not part of the property",
 		"an empty property map and a nil one are the same (marshalled as null)",
